@@ -312,9 +312,11 @@ Fixpoint inv_ok (E : env) (ct cf : conv) {struct ct} : bool :=
   end.
 
 (** A Go field [g] (a row of the FromProto table) is fine when FromProto reads it from a message
-    field [p] that ToProto fills from the same Go field [g] with the inverse conversion. *)
+    field [p] that ToProto fills from the same Go field [g] with the inverse conversion.  A named
+    exclusion must not be read from the message at all. *)
 Definition from_row_ok (E : env) (t : table) (ex : list string) (r : row) : bool :=
-  mem (r_dst r) ex ||
+  if mem (r_dst r) ex then match r_src r with None => true | Some _ => false end
+  else
   match r_src r with
   | None => false
   | Some (p, cf) =>
@@ -328,9 +330,24 @@ Definition from_row_ok (E : env) (t : table) (ex : list string) (r : row) : bool
       end
   end.
 
+(** A message field that ToProto fills from Go field [g] is read back by FromProto into [g]. *)
+Definition to_row_ok (t : table) (tr : row) : bool :=
+  match r_src tr with
+  | None => true
+  | Some (g, _) =>
+      match find_row g (t_from t) with
+      | Some r => match r_src r with
+                  | Some (p, _) => String.eqb p (r_dst tr)
+                  | None => false
+                  end
+      | None => false
+      end
+  end.
+
 Definition fields_ok (E : env) (n : string) (t : table) : bool :=
   nodup_str (map r_dst (t_from t)) && nodup_str (map r_dst (t_to t)) &&
-  forallb (from_row_ok E t (excl_of E n)) (t_from t).
+  forallb (from_row_ok E t (excl_of E n)) (t_from t) &&
+  forallb (to_row_ok t) (t_to t).
 
 (** The kinds handled by QToProto come back from QFromProto as the same kind. *)
 Definition qkind_ok (E : env) (k : string) : bool :=
@@ -498,6 +515,36 @@ Section Handlers.
     | _ => handle_list req
     end.
 End Handlers.
+
+(* ---------------------------------------------------------------- the no-panic check *)
+
+(** FromProto-side conversions that cannot panic on any wire-decoded value, given that the tables
+    they refer to are themselves safe ([from_safe]). *)
+Fixpoint safe_conv (E : env) (c : conv) : bool :=
+  match c with
+  | CId | CStrBytes | CInt _ _ | CDurFrom | CTimeFrom | CEnum _ _ | CListToSet | CInj _
+  | CReFrom _ | CBitmapFrom | CQFrom => true
+  | CList c' | CMapV c' => safe_conv E c'
+  | CRec false _ n =>
+      match lookup n (e_tables E) with Some t => t_from_nilsafe t | None => true end
+  | _ => false
+  end.
+
+(** the conversion of a oneof payload: a set oneof carries a non-nil message on the wire, so the
+    getter-less RawConfigFromProto is acceptable there *)
+Definition safe_payload_conv (E : env) (c : conv) : bool :=
+  safe_conv E c || match c with CFlagsFrom _ => true | _ => false end.
+
+Definition row_safe (E : env) (r : row) : bool :=
+  match r_src r with None => true | Some (_, c) => safe_conv E c end.
+
+Definition from_safe (E : env) : bool :=
+  e_qfrom_nil_safe E && negb (e_qfrom_default_panics E) &&
+  forallb (fun nt => forallb (row_safe E) (t_from (snd nt))) (e_tables E) &&
+  forallb (fun kc => safe_payload_conv E (snd (snd kc))) (e_qfrom E) &&
+  match lookup "" (e_qfrom E) with None => true | Some _ => false end &&
+  match lookup "zoekt.SearchOptions" (e_tables E) with Some _ => true | None => false end &&
+  forallb (fun nt => t_from_nilsafe (snd nt)) (e_tables E).
 
 (* ---------------------------------------------------------------- correspondence runner *)
 
